@@ -247,3 +247,26 @@ pub fn record_c11(out: &str, seed: u64, n: usize) {
     w.finish();
     println!("{}", json!({"events": events, "nontrivial": ok, "samples": samples, "counters": {"slid_exhaustively": slid}}));
 }
+
+/// MC_Classify: which parser a line is handed to, under each rule-type option
+pub fn replay_classify(c: &Value, rep: &mut Report) {
+    use adblock::lists::{parse_filter, FilterParseError, ParsedFilter};
+    let line = c["line"].as_str().unwrap();
+    for (name, rt) in [("all", RuleTypes::All), ("network", RuleTypes::NetworkOnly), ("cosmetic", RuleTypes::CosmeticOnly)] {
+        rep.evaluations += 1;
+        let got = match guarded(|| parse_filter(line, true, ParseOptions { rule_types: rt, ..Default::default() })) {
+            Ok(Ok(ParsedFilter::Network(_))) | Ok(Err(FilterParseError::Network(_))) => "net".to_string(),
+            Ok(Ok(ParsedFilter::Cosmetic(_))) | Ok(Err(FilterParseError::Cosmetic(_))) => "cos".to_string(),
+            Ok(Err(FilterParseError::Unsupported)) => "unsupported".to_string(),
+            Ok(Err(FilterParseError::Empty)) => "empty".to_string(),
+            Err(p) => format!("panic:{}", p),
+        };
+        let want = c["cls"][name].as_str().unwrap();
+        if want == "net" || want == "cos" {
+            rep.nontrivial += 1;
+        }
+        if got != want {
+            rep.mismatch(json!({"what": "line-class", "line": line, "rule_types": name, "observed": got, "allowed": [want], "devs": []}));
+        }
+    }
+}
